@@ -148,7 +148,7 @@ def c03(ctx):
     rule = ("exhaustive product of checker/builder configurations (no key; key with/without alg attr; explicit alg; callback leaving alg default / "
             "setting key / alg / both) x header alg variants (none/None/NONE/known/unknown/missing/non-string) x signature (absent, garbage, real) "
             "x provider, plus token shapes with 2-5+ segments and third segment in {empty, 1-2 chars, valid HS/ES signature, junk, '='}. "
-            "Also: callback installed in one or two steps (ctx-only setcb); signatures of exactly 256 / 65536 characters; escaped-NUL alg variants. Non-trivial = cell with a key, or empty third segment, or an alg-none variant; cells distinct by construction, shapes by token hash.")
+            "Also: callback installed in one or two steps (ctx-only setcb); signatures of exactly 256 / 65536 characters; escaped-NUL alg variants; every second builder cell carries an application-set alg header member (the emitted alg is still the resolved one). Non-trivial = cell with a key, or empty third segment, or an alg-none variant; cells distinct by construction, shapes by token hash.")
     cov, mn = P.generic_harness_check(ctx, "C02_matrix", rule, MATRIX_ASSUME, extra_link="", extra_args=["--prop", "C03"], exhaustive=True,
                                       min_nontrivial={"quick": 5000, "thorough": 5000})
     return P.finish(ctx, "exploration", cov, MATRIX_ASSUME, mn)
@@ -167,7 +167,7 @@ def c01(ctx):
             "another key / another alg, ECDSA specials (r,s in {0,n}, (r,n-s), re-padded or stripped r||s), EdDSA S+L, RSA zero byte, header alg swap with "
             "kept / empty-key-HMAC / public-PEM-HMAC / real-key signatures, payload change, part swaps, header re-encoding, std alphabet). "
             "Oracle: verify==0 => reference verifier accepts (lenient base64, header alg's algorithm, exact signing input). "
-            "Deterministic parts: (a) keys nobody can sign for - RSA public JWKs with made-up moduli of 2048..65536 bits, items flagged 'Invalid alg type' after loading, HS* tokens keyed with nothing / public PEM / raw public numbers against every asymmetric key - every token must be rejected via setkey and via callback; (b) for every EC key, signatures with short r, short s, both: all nine re-encodings x provider x route; (c) same address, other key: with a recycling allocator (jwt_set_alloc) key A is loaded, used and freed, key B lands at its address and must reject A's tokens, accept its own and sign as B. Signature extensions include 255/256/257/512..131072 characters; constant-fill signatures 0x00/0xff/0x80/0x7f. Non-trivial = the case reached signature evaluation (accepted, or rejected by the crypto layer); distinct by hash of (token, provider, key, alg, config).")
+            "Deterministic parts: (a) keys nobody can sign for - RSA public JWKs with made-up moduli of 2048..65536 bits, items flagged 'Invalid alg type' after loading, HS* tokens keyed with nothing / public PEM / raw public numbers against every asymmetric key - every token must be rejected via setkey and via callback; (b) for every EC key, signatures with short r, short s, both: all nine re-encodings x provider x route; (c) same address, other key: with a recycling allocator (jwt_set_alloc) key A is loaded, used and freed, key B lands at its address and must reject A's tokens, accept its own and sign as B; (d) every asymmetric key's own kind of signature under a header that names an algorithm of another family (ES256-style under EdDSA/RS*/PS*, EdDSA under ES*, ...), key without alg attribute. Signature extensions include 255/256/257/512..131072 characters; constant-fill signatures 0x00/0xff/0x80/0x7f. Non-trivial = the case reached signature evaluation (accepted, or rejected by the crypto layer); distinct by hash of (token, provider, key, alg, config).")
     assumptions = ["reference verifier in vkeys.h on raw OpenSSL EVP decides validity (PSS: any salt length; ECDSA: fixed-width r||s)",
                    "structural forgeries only; primitives are trusted"]
     cov, mn = P.generic_harness_check(ctx, "C01_forge", rule, assumptions, min_nontrivial={"quick": 5000, "thorough": 50000})
@@ -302,7 +302,7 @@ def c16(ctx):
             "find_bykid existing/prefix/absent/extended/duplicate; free_bad; free_all; error_clear), plus rapidcheck sequences of length 1-60. Every loaded key carries a "
             "unique tag (oct key bytes / kid). Oracle: vector model - every return value, and after every operation count, identity and error flag of each item_get(i), "
             "NULL at and beyond count, jwks_error and jwks_error_any; ASan on every step; __lsan_do_recoverable_leak_check() after freeing the set of every sequence. "
-            "17 operations (adds loads of keys that fail half-way: EC x/y/d, RSA e/p, OKP x). Every sequence is run twice: state inspected after every step, and inspected at the end only (get(count) first, scan from the back); out-of-range indices 256, 65536, 2^31, 2^32(+1), 2^63(+1), SIZE_MAX(-1) for get and free; kid lookups with 256/65536 extra characters; odd workers under GnuTLS; every fourth worker with a recycling allocator. Non-trivial = a removal followed by a load or indexed access, or a find among duplicate kids; distinct by hash of the operation list.")
+            "17 operations (adds loads of keys that fail half-way: EC x/y/d, RSA e/p, OKP x). Every sequence is run twice: state inspected after every step, and inspected at the end only (get(count) first, scan from the back); out-of-range indices 256, 65536, 2^31, 2^32(+1), 2^63(+1), SIZE_MAX(-1) for get and free; kid lookups with 256/65536 extra characters; odd workers under GnuTLS; every fourth worker with a recycling allocator, every fourth with a ledger allocator; loads include good EC / OKP / RSA private keys. Non-trivial = a removal followed by a load or indexed access, or a find among duplicate kids; distinct by hash of the operation list.")
     assumptions = ["find_bykid is never called with NULL (undocumented)", "LSan attributes a leak to the sequence after which it is first seen"]
     cov, mn = P.generic_harness_check(ctx, "C16_keyring", rule, assumptions, exhaustive=True, env_extra=LEAK_ENV,
                                       min_nontrivial={"quick": 5000, "thorough": 100000})
@@ -362,7 +362,7 @@ def c19(ctx):
             "iss/sub/aud set or not, exp/nbf leeway 0/50/off) x token whose exp, nbf, iss, sub, aud each are absent / passing / failing / wrong-typed and whose signature is valid or "
             "not, x provider, at a fixed clock. Oracle: verdict with the callback == verdict of an identical checker without callback; a callback returning non-zero always fails "
             "with the error flag set. Plus the exhaustive grid (provider x key table x 10 algs x 3 token kinds): a (key, alg) selected by a callback verifies iff the same pair given "
-            "to setkey is admitted and verifies. Programs contain typed reads; checkers optionally reused after a failure; select grid with ten keys carrying use / key_ops, modes 'callback sets alg only' / 'key only'. Non-trivial = the program edits a claim/header an enabled check reads (or wipes/replaces the object); distinct by hash of the whole case.")
+            "to setkey is admitted and verifies. Programs contain typed reads; checkers optionally reused after a failure; select grid with ten keys carrying use / key_ops, modes 'callback sets alg only' / 'key only'; a third checker gets an idle callback with a context first and the case's callback over it (same verdict and run count required). Non-trivial = the program edits a claim/header an enabled check reads (or wipes/replaces the object); distinct by hash of the whole case.")
     assumptions = ["the callback leaves jwt_config_t untouched in the metamorphic part", "fixed clock; reference signer builds the tokens"]
     cov, mn = P.generic_harness_check(ctx, "C19_callback", rule, assumptions, min_nontrivial={"quick": 5000, "thorough": 50000})
     return P.finish(ctx, "exploration", cov, assumptions, mn)
@@ -405,7 +405,7 @@ def c05(ctx):
             "8 KiB, names colliding with alg/typ/iat/nbf/exp) set through whole-object JSON or typed setters x iat/nbf/exp options x clock. Oracle: generate != NULL; the "
             "independent verifier accepts (fixed-width r||s, PSS); segments are canonical unpadded base64url; a checker with the public (or same symmetric) key returns 0 under the "
             "verifying provider; header and claims read in its callback are json_equal to builder content + {alg, typ default, iat, nbf, exp}. A volume phase signs hundreds of "
-            "ES256/ES384/ES512 tokens per provider to hit short r or s. Modes: typed / whole-object sets; checker reused after failures; key supplied by callback instead of setkey (builder and checker); the reading callback first probes present and absent members with every typed getter. All jwt_value_t are dirty (0xA5) before the macro-equivalent assignments. Non-trivial = ECDSA signature with a leading zero byte in r or s, tree depth >=3 / non-ASCII / |int|>2^53, "
+            "ES256/ES384/ES512 tokens per provider to hit short r or s. Modes: typed / whole-object sets; checker reused after failures; key supplied by callback instead of setkey (builder and checker); the reading callback first probes present and absent members with every typed getter; builder and checker first keyed with another key + explicit algorithm, then re-keyed (setkey over setkey). All jwt_value_t are dirty (0xA5) before the macro-equivalent assignments. Non-trivial = ECDSA signature with a leading zero byte in r or s, tree depth >=3 / non-ASCII / |int|>2^53, "
             "or a cross-provider pair; distinct by hash of the token.")
     assumptions = ["ES256K / secp256k1 only openssl->openssl (GnuTLS lacks it)", "user-supplied exp/nbf claims are not generated (the default checker would enforce them)",
                    "randomized signatures: the replay re-signs up to 20 times"]
@@ -445,7 +445,7 @@ def c09(ctx):
             "1024/2047/2048) x RS*/PS*; EC curves P-256, P-384, P-521, secp256k1, secp224r1, brainpoolP256r1, brainpoolP384r1 x ES256/ES256K/ES384/ES512; Ed25519, Ed448 x EdDSA; "
             "cross-family probes; each for jwt_builder_generate and for jwt_checker_verify of a token the reference signer signed validly with that very key; both providers. "
             "Oracle: below the floor => NULL / non-zero with error flag and message; at or above => generate succeeds, the token verifies and the reference verifier accepts "
-            "(GnuTLS: asserted for the curves it supports). Every cell also with the key naming the algorithm itself (pinned by key+setkey / key alone) and with an item flagged after loading (alg: 256); oct keys of the sizes asymmetric tests look for. Non-trivial = cell within one step of a threshold (31/32/33, 47/48/49, 63/64/65 bytes; 2040-2056 bits; every EC/OKP cell); "
+            "(GnuTLS: asserted for the curves it supports). Every cell also with the key naming the algorithm itself (pinned by key+setkey / key alone) and with an item flagged after loading (alg: 256); oct keys of the sizes asymmetric tests look for. The importer refusing an adequate key (with stale entries in OpenSSL's error queue) is a violation, not a skipped cell. Non-trivial = cell within one step of a threshold (31/32/33, 47/48/49, 63/64/65 bytes; 2040-2056 bits; every EC/OKP cell); "
             "cells are distinct by construction.")
     assumptions = ["the statement constrains EC size only: brainpoolP256r1 may sign ES256 under OpenSSL", "a key the importer refuses counts as refused"]
     cov, mn = P.generic_harness_check(ctx, "C09_floor", rule, assumptions, extra_link="", exhaustive=True, min_nontrivial={"quick": 200, "thorough": 200})
@@ -602,7 +602,7 @@ def c20(ctx):
             "spellings, under JWT_CRYPTO=openssl and gnutls; (3) key2jwk over 1-8 freshly generated keys per invocation (RSA, RSA-PSS, P-256/384/521, secp256k1, Ed25519, Ed448, "
             "private and public PEM, oct files of 32-512 bytes; EC keys optionally forced to have a leading-zero coordinate): output parses, each JWK denotes the same key with "
             "fixed-width EC x, y, d (own decoder), jwk2key writes back files with the identical key; -h/--help/-l/--list exit 0. Any sanitizer report in a tool run is a violation. "
-            "Tools run with RLIMIT_NOFILE 64; verify lists also with -v, -v -p cat and the long spellings (100/300 tokens); valid tokens of 8188-8194 and 16381-16385 characters on stdin; jwt-generate with up to three typed claims (exp in 2100, 2^31, 2^53+1, LONG_MAX, negative, hex); keys in other file encodings (compressed/hybrid EC point, SEC1/PKCS#1), oct keys ending in newline/CR/NUL/space, 255-257 keys per run; RSA-PSS stays RSA-PSS. Non-trivial = list with failing tokens (>=255 counted separately), short-spelled options with arguments, EC keys with a leading-zero coordinate, every conversion; "
+            "Tools run with RLIMIT_NOFILE 64; verify lists also with -v, -v -p cat and the long spellings (100/300 tokens); valid tokens of 8188-8194 and 16381-16385 characters on stdin; jwt-generate with up to three typed claims (exp in 2100, 2^31, 2^53+1, LONG_MAX, negative, hex); keys in other file encodings (compressed/hybrid EC point, SEC1/PKCS#1), oct keys ending in newline/CR/NUL/space, 255-257 keys per run; RSA-PSS stays RSA-PSS; lists of three with exactly one failing token of each of ten kinds (damaged, cut, followed by CR / CR+text / tab / space) at each position, as arguments and on stdin; last-line lists; key files with two keys. Non-trivial = list with failing tokens (>=255 counted separately), short-spelled options with arguments, EC keys with a leading-zero coordinate, every conversion; "
             "distinct by hash of the case.")
     assumptions = ["tools run with detect_leaks=0 (they exit without freeing by design; the exit status is the oracle)", "C20_helper (OpenSSL + vlib) generates keys and judges key equality"]
     w = c20_wrapper()
